@@ -32,6 +32,21 @@ def run(tier, seed):
             T = toeplitz(blk)
             return all(same(T[j][i], blk[abs(i - j)]) for i in range(L) for j in range(L)) and len(T) == L, "toeplitz"
         R.guard("toeplitz-is-the-plain-table", {"L": L}, tp)
+    # no state survives between calls: the same list object modified in place between two analyses
+    def stale():
+        blk = [F(1), F(2), F(-1), F(3), F(2)]
+        r1 = acorr(blk, 2)
+        f1 = lpc.kautocor(blk, 2)
+        for i in range(len(blk)):
+            blk[i] = blk[i] * (i + 1)
+        r2 = acorr(blk, 2)
+        f2 = lpc.kautocor(blk, 2)
+        fresh = list(blk)
+        e2 = [sum(fresh[n] * fresh[n + t] for n in range(len(fresh) - t)) for t in range(3)]
+        f3 = lpc.kautocor(fresh, 2)
+        return [F(v) for v in r2] == e2 and all(abs(float(a) - float(b)) < 1e-12 for a, b in zip(f2.numerator, f3.numerator)) and abs(float(f2.error) - float(f3.error)) < 1e-9, \
+            "after modifying the block in place: acorr gives %r (fresh copy: %r)" % ([str(v) for v in r2], [str(v) for v in e2])
+    R.guard("no-state-between-calls-(block-modified-in-place)", {}, stale)
     # Levinson-Durbin: fully symbolic r for orders <= 2; exact rational r (from reflection coefficients in (-1,1) and from data) up to maxp
     import random
     rnd = random.Random(1000 + seed)
